@@ -1182,17 +1182,23 @@ func (f *e1func) transfer(st *fstate, n ast.Node, sites *[]*e1site) []*fstate {
 			st = ns
 		}
 		return []*fstate{st}
-	case *ast.DeclStmt:
-		gd, ok := s.Decl.(*ast.GenDecl)
-		if !ok {
-			return []*fstate{st}
+	case *ast.DeclStmt, *ast.ValueSpec:
+		// go/cfg records each var ValueSpec of a declaration statement as its own node
+		var specs []*ast.ValueSpec
+		switch d := n.(type) {
+		case *ast.ValueSpec:
+			specs = []*ast.ValueSpec{d}
+		case *ast.DeclStmt:
+			if gd, ok := d.Decl.(*ast.GenDecl); ok {
+				for _, sp := range gd.Specs {
+					if vs, ok := sp.(*ast.ValueSpec); ok {
+						specs = append(specs, vs)
+					}
+				}
+			}
 		}
 		var add []*Term
-		for _, sp := range gd.Specs {
-			vs, ok := sp.(*ast.ValueSpec)
-			if !ok {
-				continue
-			}
+		for _, vs := range specs {
 			for i, id := range vs.Names {
 				lt := f.lhsTerm(id)
 				if lt == nil || lt.K != "var" {
@@ -1207,7 +1213,6 @@ func (f *e1func) transfer(st *fstate, n ast.Node, sites *[]*e1site) []*fstate {
 				} else if len(vs.Values) == 1 {
 					add = append(add, fact("def", lt, f.term(vs.Values[0]), mk("const", fmt.Sprint(i))))
 				} else if len(vs.Values) == 0 {
-					add = append(add, fact("zero", lt))
 					add = append(add, zeroFacts(lt, lt.Obj.Type())...)
 				}
 			}
